@@ -35,11 +35,11 @@ TEXT = {
             "§4 C13", "full"),
     "C14": ("Theorems for every table: same-unit identity, first matching row (List.find?), none without a row; for the regenerated temperature table: covers all pairs, rows match the exact formulas, inverse/compose bounds; tie: random tables and the temperature table on all 9 pairs. What convert COMPUTES is mutually inverse and composes consistently within explicit bounds: conv_roundtrip_sound / conv_compose_sound for any table and arithmetic, temp_roundtrip_dec / temp_compose_dec for the regenerated table and all decimal amounts up to 1e12.",
             "§4 C14", "full"),
-    "C15": ("Theorems on the model of Quantity::fmt / Unit::fmt / Rate Display and of core::fmt padding: shape, sign, round trip, width and precision; oracle on implementation strings (parse back, exact rounding, char width).",
+    "C15": ("Theorems on the model of Quantity::fmt / Unit::fmt / Rate Display and of core::fmt padding: shape, sign, round trip, width and precision; oracle on implementation strings (parse back, exact rounding, char width). The binary64 amount text is computed by the model (shortest round-trip digits / exact expansion rounded half-even) with theorems for all 2^64 bit patterns (shape, correct rounding, bit-exact round trip, shortest and closest) and compared with std.",
             "§4 C15", "partial: core::fmt is modelled"),
     "C16": ("Kernel-checked theorems on the regenerated five SI tables: equal to the SI brochure table, injective, from_exp/from_abbr characterised for ALL integers and ALL strings, iteration complete and increasing; tie: exhaustive run over all i8 and all short strings on the implementation.",
             "§4 C16", "full"),
-    "C17": ("Theorems: de(ser(q)) = q and injectivity on the serde data-model tree for both amount types (decimal via Display/FromStr round trip); tie: serde_json value tree and text on all units x adversarial amounts.",
+    "C17": ("Theorems: de(ser(q)) = q and injectivity on the serde data-model tree for both amount types (decimal via Display/FromStr round trip); tie: serde_json value tree and text on all units x adversarial amounts. The binary64 JSON number text is computed by the model (ryu layout and tie rule) and compared with serde_json.",
             "§4 C17", "partial: serde_derive / serde_json are modelled"),
     "C18": ("Theorems: no modelled operation returns a panic in f64; none in decimal inside the stated magnitude domain; otherwise only the documented unit-mismatch panic; tie: panic kinds of every executed op compared with the model.",
             "§4 C18", "full for modelled ops"),
